@@ -79,6 +79,10 @@ def gen(rng, tier, i):
         if rng.random() < 0.85: batch.append('hb %s %d' % (t, rng.choice((1, 1, 1, 2, 3))))
         if len(batch) == 12: cmd(';'.join(batch)); batch = []
     if batch: cmd(';'.join(batch))
+    if rng.random() < 0.1:
+        # the blueprint itself has a heart beat - and is cloned later on
+        cmd('hb /vobj %d' % rng.choice((1, 1, 2)))
+        p.meta['blueprint_hb'] = True
     nticks = rng.randint(8, 30)
     clock_steps = rng.random() < 0.15     # the wall clock is set back (or far ahead) between ticks: heart beats count ticks, not seconds
     for k in range(nticks):
@@ -243,6 +247,20 @@ def check(plan, res):
                 # the failing object's heart beat must be off now; whoever re-enables it opens a new window
                 win = None
         if win: close(win, last_tick, False, 'end')
+    if plan.meta.get('blueprint_hb'):
+        # clone_object() switches the heart beat of the blueprint it copies off (deliberately, says its comment): every
+        # complaint about the blueprint after the first clone made while it was beating is that one finding
+        set_on = next((i for i, e in enumerate(evs) if e.kind == 'R' and re.match(r'HBSET /vobj \d+ q=[1-9]', e.rest)), None)
+        first_clone = next((i for i, e in enumerate(evs) if e.kind == 'R' and e.rest.startswith('CLONED ') and set_on is not None and i > set_on), None)
+        if first_clone is not None and set_on is not None:
+            out = []; told = False
+            for x in v:
+                if re.search(r'(^| )/vobj( |$)', x.detail):
+                    if not told:
+                        out.append(Violation(PROP, 'blueprint', 'the heart beat of the blueprint /vobj, enabled and never disabled by anybody, stops when the blueprint is cloned (%s)' % x.detail[:120], PROP + '/blueprint/heart-beat-off-after-clone'))
+                        told = True
+                else: out.append(x)
+            v = out
     return v
 
 
